@@ -181,6 +181,10 @@ class LayoutTyper(Structured):
                 E = self.dom_term(f.value, env)
                 if E is not None:
                     return ('canonical', E, self.attrs_term(e.args[0], env))
+        if isinstance(e, (ast.ListComp, ast.GeneratorExp)):
+            c = self.complement(e, env)
+            if c is not None:
+                return c
         if isinstance(e, ast.Name):
             v = env.get(e.id)
             if v is not None and v.kind == 'attrs':
@@ -196,6 +200,37 @@ class LayoutTyper(Structured):
         if d is not None:
             return attrs_of_dom(d)
         return ('expr', U(e))
+
+    def complement(self, e, env):
+        """[a for a in D.attrs if a not in S]  and  [a for a, d in zip(D.attrs, M) if not d]  with M the membership mask of S over D:
+        the attributes of D outside S, in D's order  ->  ('complement', D, S)"""
+        if len(e.generators) != 1 or len(e.generators[0].ifs) != 1:
+            return None
+        g = e.generators[0]
+        c = g.ifs[0]
+        if isinstance(g.target, ast.Name) and U(e.elt) == g.target.id:
+            neg = False
+            if isinstance(c, ast.UnaryOp) and isinstance(c.op, ast.Not):
+                c, neg = c.operand, True
+            if isinstance(c, ast.Compare) and len(c.ops) == 1 and U(c.left) == g.target.id and \
+                    ((isinstance(c.ops[0], ast.NotIn) and not neg) or (isinstance(c.ops[0], ast.In) and neg)):
+                D = self.dom_term(g.iter, env)
+                if D is None and isinstance(g.iter, ast.Attribute) and g.iter.attr == 'attrs':
+                    D = self.dom_term(g.iter.value, env)
+                if D is not None:
+                    return ('complement', D, self.attrs_term(c.comparators[0], env))
+            return None
+        if isinstance(g.target, ast.Tuple) and len(g.target.elts) == 2 and all(isinstance(x, ast.Name) for x in g.target.elts) and \
+                isinstance(g.iter, ast.Call) and U(g.iter.func) == 'zip' and len(g.iter.args) == 2 and U(e.elt) == g.target.elts[0].id and \
+                isinstance(c, ast.UnaryOp) and isinstance(c.op, ast.Not) and U(c.operand) == g.target.elts[1].id:
+            it = g.iter.args[0]
+            D = self.dom_term(it, env)
+            if D is None and isinstance(it, ast.Attribute) and it.attr == 'attrs':
+                D = self.dom_term(it.value, env)
+            m = self.ev(g.iter.args[1], env, quiet=True)
+            if D is not None and m.kind == 'mask' and m.a == D:
+                return ('complement', D, m.b)
+        return None
 
     def dom_term(self, e, env):
         if isinstance(e, ast.Name):
@@ -218,7 +253,10 @@ class LayoutTyper(Structured):
                 return None if o is None else ('merge', base, o)
             if m == 'transpose':
                 m = 'project'
-            return (m, base, self.attrs_term(e.args[0], env))
+            at = self.attrs_term(e.args[0], env)
+            if m == 'project' and isinstance(at, tuple) and at[0] == 'complement' and at[1] == base:
+                return ('marginalize', base, at[2])          # D.project(the attributes of D outside S) is D.marginalize(S)
+            return (m, base, at)
         return None
 
     # -- expression evaluation ---------------------------------------------------
@@ -315,6 +353,9 @@ class LayoutTyper(Structured):
         if isinstance(e, (ast.Tuple, ast.List)):
             return V('seq')
         if isinstance(e, (ast.ListComp, ast.GeneratorExp)):
+            c = self.complement(e, env)
+            if c is not None:
+                return V('attrs', c)
             return self.ev_slices(e, env)
         if isinstance(e, ast.Call):
             return self.ev_call(e, env, quiet, rep)
@@ -463,6 +504,32 @@ class LayoutTyper(Structured):
             E = self.dom_term(f.value, env)
             if E is not None:
                 return V('attrs', ('canonical', E, self.attrs_term(e.args[0], env)))
+        if kind == 'np' and name in ('isin', 'in1d') and len(e.args) == 2 and not kw:
+            # np.isin(D.attrs, list(S)): the membership mask of S over the axes of D
+            x = e.args[0]
+            if isinstance(x, ast.Call) and U(x.func) in ('np.array', 'np.asarray', 'list', 'tuple') and len(x.args) == 1:
+                x = x.args[0]
+            D = self.dom_term(x.value, env) if isinstance(x, ast.Attribute) and x.attr == 'attrs' else None
+            if D is not None:
+                y = e.args[1]
+                if isinstance(y, ast.Call) and U(y.func) in ('list', 'tuple', 'sorted') and len(y.args) == 1:
+                    return V('mask', D, self.attrs_term(y.args[0], env))
+                yv = self.ev(y, env, quiet=True)
+                if isinstance(y, (ast.List, ast.Tuple)) or (yv.kind == 'attrs' and not (isinstance(yv.a, tuple) and yv.a[0] == 'var')):
+                    return V('mask', D, self.attrs_term(y, env))
+                rep('axis-by-name', e, False,
+                    'membership mask of the requested attributes over %s: `%s` hands the request `%s` to numpy as it came; a set, frozenset or '
+                    'dict view becomes a 0-d object array holding the container, no name matches and NOTHING is aggregated (callers pass sets); '
+                    'materialise it with list(..) first' % (show(D), U(e), U(y)))
+                return V('mask', D, ('expr', 'nothing'))
+        if kind == 'np' and name in ('flatnonzero',) and len(e.args) == 1:
+            m = self.ev(e.args[0], env, quiet)
+            if m.kind == 'mask':
+                return V('axes', m.a, m.b)
+        if kind == 'meth' and name == 'tolist' and not e.args:
+            r_ = self.ev(f.value, env, quiet)
+            if r_.kind == 'axes':
+                return r_
         if kind == 'meth' and name == 'axes' and len(e.args) == 1:
             D = self.dom_term(f.value, env)
             if D is not None:
